@@ -223,6 +223,7 @@ func TestC07(t *testing.T) {
 		ID: "C07",
 		Gen: func(r *kit.Rand, tier string) ConcCase {
 			c := ConcCase{Sched: kit.GenSched(r, kit.PickOf(r, "conc", "conc", "dense")), Knobs: kit.GenKnobs(r), NKeys: r.Range(2, 10), PSeed: r.Uint64()}
+			c.Knobs.DiskUs = kit.PickOf(r, 0, 0, 100, 1000) // calls take virtual time: they overlap with timers and each other
 			c.Sched.MaxVirtS = 24 * 3600
 			c.Knobs.MemTableSize = kit.PickOf(r, int64(256), 512, 1024, 4096, 65536)
 			c.Knobs.CompactionInterval = kit.PickOf(r, int64(1), 1, 2)
